@@ -58,6 +58,10 @@ impl HasKey<paseto_core::version::Secret> for V1 {
     fn decode(bytes: &[u8]) -> Result<SecretKey, PasetoError> {
         use rsa::pkcs1::{DecodeRsaPrivateKey, EncodeRsaPrivateKey};
 
+        if super::has_trivial_prime(bytes) {
+            return Err(PasetoError::InvalidKey);
+        }
+
         let (key, is_der) = if let Ok(key) = rsa::RsaPrivateKey::from_pkcs1_der(bytes) {
             (key, true)
         } else {
